@@ -454,7 +454,9 @@ fn any_rsync_fixed_module<const N: usize, const M: usize>()
     kani::assume(want.is_some());
     let (a, m) = want.unwrap();
     assert!(a == 1 && m == 1);
-    let buf: &'static [u8; M] = Box::leak(Box::new(rsync_uri::<N, M>(&tail)));
+    let mask: u8 = kani::any();
+    let buf: &'static [u8; M] =
+        Box::leak(Box::new(rsync_uri_case::<N, M>(&tail, mask)));
     let u = Rsync::verif_from_parts(bytes::Bytes::from_static(buf), 10, 12);
     (u, buf, 1, 1)
 }
@@ -574,6 +576,53 @@ fn rsync_relative_to_concrete_other() {
     let (below, _) = rsync_relative_check::<16, 13>(
         any_rsync_fixed_module::<8, 16>(), rsync_h_m_a());
     kani::cover!(below);
+}
+
+/// A concrete tail behind a scheme whose letter case is arbitrary.
+fn rsync_any_scheme_case<const N: usize, const M: usize>(tail: &[u8; N])
+    -> (Rsync, &'static [u8; M], usize, usize) {
+    let mask: u8 = kani::any();
+    let buf: &'static [u8; M] =
+        Box::leak(Box::new(rsync_uri_case::<N, M>(tail, mask)));
+    (Rsync::verif_from_parts(bytes::Bytes::from_static(buf), 10, 12),
+     buf, 1, 1)
+}
+
+/// @tier quick thorough
+/// @fn rpki::uri::Rsync::relative_to rpki::uri::Rsync::is_parent_of rpki::uri::Rsync::eq
+/// @bounds the concrete URIs h/m/a/b, h/m/a/, h/m/a (all-lowercase
+///   authority) behind a scheme whose five letters are independently in
+///   upper or lower case on either side (2^10 combinations per pair,
+///   symbolic); unwind 16
+/// @says the scheme is case-insensitive for the path algebra too: equal URIs
+///   (whatever the case of the scheme) have the empty relative path, a URI
+///   below another one has the expected remainder, parent-of agrees with ==
+#[kani::proof]
+#[kani::unwind(16)]
+fn rsync_relative_to_scheme_case() {
+    let (x, ..) = rsync_any_scheme_case::<7, 15>(b"h/m/a/b");
+    let (x2, ..) = rsync_any_scheme_case::<7, 15>(b"h/m/a/b");
+    let (y, ..) = rsync_any_scheme_case::<6, 14>(b"h/m/a/");
+    let (z, ..) = rsync_any_scheme_case::<5, 13>(b"h/m/a");
+    kani::cover!(x.as_slice()[0] != x2.as_slice()[0]);
+    kani::cover!(x.as_slice()[4] == b'C' && y.as_slice()[4] == b'c');
+    assert!(x == x2);
+    match x.relative_to(&x2) {
+        Some(r) => assert!(r.is_empty()),
+        None => panic!("equal URIs must have the empty relative path"),
+    }
+    assert!(!x.is_parent_of(&x2) && !x2.is_parent_of(&x));
+    match x.relative_to(&y) {
+        Some(r) => assert!(r.len() == 1 && r.as_bytes()[0] == b'b'),
+        None => panic!("h/m/a/b is below h/m/a/"),
+    }
+    match x.relative_to(&z) {
+        Some(r) => assert!(r.len() == 1 && r.as_bytes()[0] == b'b'),
+        None => panic!("h/m/a/b is below h/m/a"),
+    }
+    assert!(y.is_parent_of(&x) && z.is_parent_of(&x));
+    assert!(!x.is_parent_of(&y) && y.relative_to(&x).is_none());
+    std::mem::forget((x, x2, y, z));
 }
 
 /// @tier thorough
